@@ -527,18 +527,17 @@ end PM
 /-! ## bytes through the modelled JSON parser (builder jsonparse)
 
 The text-level idempotence of composeinfo with `parse := JsonParse.parseWith lim` (the model of CPython's `json.loads`,
-Model/JsonParse.lean; see the block of the same name in `Properties/C01.lean` for why `hjson` is replaced by the
-representability of the written document and the key-order independence of the reload). -/
+Model/JsonParse.lean; see the block of the same name in `Properties/C01.lean`: the representability of the written document
+and the key-order independence of the reader are theorems there; what is left is that `int()` accepts the digits of the
+respin under the digit limit `lim`). -/
 namespace PM
 open PM.CI
 
 theorem C05_ci_idempotent_bytes_parsed (lim : Nat) (doc : PyVal) (x : ComposeInfo) (t : Str)
     (h : Legacy.deserialize doc = .ok x)
-    (hrep : ∀ j, serialize x = .ok j → Mf.jsonRep j = true ∧ JsonParse.numsOk lim j = true)
-    (hord : ∀ j, serialize x = .ok j →
-      reloadDump (fun _ => .ok (PyVal.canon j)) (JsonText.dumps j) = reloadDump (fun _ => .ok j) (JsonText.dumps j))
+    (hnum : JsonParse.intFits lim x.compose.respin = true)
     (hd : dumps x = .ok t) :
     reloadDump (JsonParse.parseWith lim) t = .ok t :=
-  C01_bytes_parsed lim x t (Legacy.deserialize_wellKeyed doc x h) hrep hord hd
+  C01_bytes_parsed lim x t (Legacy.deserialize_wellKeyed doc x h) hnum hd
 
 end PM
